@@ -1,5 +1,6 @@
 import EdVerif.Ssa.Sem
 import EdVerif.Ssa.Prov
+import EdVerif.Ssa.Wf
 /-!
 # C11(b) / C19 — what the provenance checkers are supposed to guarantee (statements only)
 
@@ -21,11 +22,269 @@ def allClean (sel : Selector) : List Func → List FuncHints → Nat → Bool
      | h :: _ => (match sel i f h with | some c => c.clean f | none => true)
      | [] => false) && allClean sel fs hs.tail (i + 1)
 
+/-! ## side conditions
+
+Decidable well-formedness conditions on the program and its hints that the soundness proofs
+(`EdVerif/Ssa/ProvSound`) rely on, beyond what `provSelector` / `writesSelector` check.  Each is
+listed with its reason in `EdVerif/Ssa/ProvSound/STATUS.md`.  They are evaluated by the kernel on the
+regenerated program together with the verdicts. -/
+namespace Side
+
+def idMask : List Instr → Nat → Nat
+  | [], m => m
+  | i :: is, m => idMask is (m ||| (1 <<< i.id))
+
+/-! ### defined-before-use certificate: `D[b]` = registers certainly defined on entry to block `b`
+(computed by the usual forward data-flow iteration; the proofs only use the local conditions
+`jumpOk`/`D[0] = 0` re-checked below, not the way it is computed) -/
+
+def outMasks : List Block → List Nat → List Nat
+  | bl :: bs, d :: ds => (d ||| idMask bl.instrs 0) :: outMasks bs ds
+  | _, _ => []
+
+def meetPreds (outs : List Nat) (full : Nat) : List Nat → Nat → Nat
+  | [], acc => acc
+  | p :: ps, acc => meetPreds outs full ps (acc &&& outs.getD p full)
+
+def defStepGo (outs : List Nat) (full : Nat) : List Block → Nat → List Nat
+  | [], _ => []
+  | bl :: bs, b => (if b == 0 then 0 else meetPreds outs full bl.preds full) :: defStepGo outs full bs (b + 1)
+
+def defIter (blocks : List Block) (full : Nat) : Nat → List Nat → List Nat
+  | 0, D => D
+  | k + 1, D =>
+    let D' := defStepGo (outMasks blocks D) full blocks 0
+    if D' == D then D else defIter blocks full k D'
+
+def initD (full : Nat) : List Block → Nat → List Nat
+  | [], _ => []
+  | _ :: bs, b => (if b == 0 then 0 else full) :: initD full bs (b + 1)
+
+def defSets (f : Func) : List Nat :=
+  let full := 2 ^ f.instrs.length - 1
+  defIter f.blocks full (f.blocks.length + 1) (initD full f.blocks 0)
+
+/-- registers defined when the instruction at position `n` of block `b` is about to execute -/
+def defMask (D : List Nat) (f : Func) (b n : Nat) : Nat :=
+  D.getD b 0 ||| idMask (match f.blocks[b]? with | some bl => bl.instrs.take n | none => []) 0
+
+def definesValue : Op → Bool
+  | .store _ _ _ | .if _ _ _ | .jump _ | .ret _ | .panic _ => false
+  | _ => true
+
+/-- if type `t'` has a size, `t` has the same -/
+def sizeEq (prog : Program) (t t' : Nat) : Bool :=
+  match prog.size t' with
+  | none => true
+  | some n => prog.size t == some n
+
+/-- if type `t` has a size, it is `k` -/
+def sizeIs (prog : Program) (t k : Nat) : Bool :=
+  match prog.size t with
+  | none => true
+  | some n => n == k
+
+/-- operand `o` (evaluated with type `useTy`) is defined here and has the size of type `ty` -/
+def opndSized (prog : Program) (f : Func) (dm : Nat) (useTy ty : Nat) : Opnd → Bool
+  | .reg id =>
+    dm.testBit id &&
+    (match f.instrs[id]? with
+     | some i => definesValue i.op && sizeEq prog i.ty ty
+     | none => false)
+  | .param i =>
+    (match f.params[i]? with
+     | some p => sizeEq prog p.tyId ty
+     | none => false)
+  | .zero _ =>
+    (match prog.size ty, prog.zeros useTy with
+     | some n, some zs => zs.length == n
+     | _, _ => true)
+  | .cint _ _ | .cbool _ | .cstr _ | .nil _ | .global _ | .fn _ => sizeIs prog ty 1
+  | _ => true
+
+def phisSized (prog : Program) (f : Func) (dm : Nat) (pred : Nat) : List Instr → Bool
+  | [] => true
+  | i :: is =>
+    (match i.op with
+     | .phi es =>
+       (match phiEdge pred es with
+        | some o => opndSized prog f dm i.ty i.ty o
+        | none => true)
+     | _ => true) && phisSized prog f dm pred is
+
+/-- a transfer of control from position `n` of block `b` to block `t` keeps the certificate, and the
+    phi operands for this edge are defined and sized -/
+def jumpOk (prog : Program) (f : Func) (D : List Nat) (b n t : Nat) : Bool :=
+  match f.blocks[t]? with
+  | some bl =>
+    -- the terminator itself (position `n`) is counted as executed: it defines no value
+    let dm := defMask D f b (n + 1)
+    (D.getD t 0 &&& dm == D.getD t 0) && phisSized prog f dm b (splitPhis bl.instrs).1
+  | none => true
+
+def retSized (prog : Program) (f : Func) (dm : Nat) : List Opnd → List Nat → Bool
+  | [], [] => true
+  | v :: vs, t :: ts => opndSized prog f dm t t v && retSized prog f dm vs ts
+  | _, _ => false
+
+/-- labels of returned operands are covered by the summary whatever their kind -/
+def retLab (c : PCtx) : List Opnd → List Prov → Bool
+  | [], _ => true
+  | v :: vs, ss => Prov.subset (c.lab v).roots (ss.headD 0) && retLab c vs ss.tail
+
+/-- arguments of a call of a program function: sized like the parameters, and only pointer-like
+    parameters receive labelled values -/
+def argsOk (c : PCtx) (dm : Nat) (ps : List Param) : List Opnd → List Nat → Nat → Bool
+  | [], _, _ => true
+  | a :: as, tys, j =>
+    (match ps[j]? with
+     | some p => opndSized c.prog c.f dm (tys.headD 0) p.tyId a && (p.k.pointerish || (c.lab a).roots == 0)
+     | none => true) && argsOk c dm ps as tys.tail (j + 1)
+
+/-- label of the defined value whatever its kind (`0`: the value never contains an address) -/
+def reqU (c : PCtx) (i : Instr) : Prov :=
+  match i.op with
+  | .alloc _ _ => Prov.fresh
+  | .makeSlice _ _ => Prov.fresh
+  | .fieldAddr x _ _ => c.lab x
+  | .indexAddr _ x _ => c.lab x
+  | .slice _ x _ _ _ => c.lab x
+  | .sliceToArrayPointer x => c.lab x
+  | .makeInterface x => c.lab x
+  | .changeType x => c.lab x
+  | .field x _ _ => c.lab x
+  | .index x _ => c.lab x
+  | .phi es => pPhi c es 0
+  | .load _ => if i.k.pointerish then Prov.loaded else 0
+  | .extract x idx => pExtract c x idx
+  | .call (.fn g) args => (pCallFn c g args).req
+  | _ => 0
+
+def allData : List Val → Bool
+  | [] => true
+  | v :: vs => v.cls == .data && allData vs
+
+def sizesOf (prog : Program) : List Nat → List (Option Nat)
+  | [] => []
+  | t :: ts => prog.size t :: sizesOf prog ts
+
+def sumSizes (prog : Program) : List Nat → Option Nat
+  | [] => some 0
+  | t :: ts =>
+    match prog.size t, sumSizes prog ts with
+    | some a, some b => some (a + b)
+    | _, _ => none
+
+/-- size of the value the instruction defines, as far as its type has a size -/
+def resSizeOk (c : PCtx) (dm : Nat) (i : Instr) : Bool :=
+  let prog := c.prog
+  match i.op with
+  | .alloc _ _ | .binop _ _ _ _ | .unop _ _ | .convert _ _ | .fieldAddr _ _ _ | .indexAddr _ _ _
+  | .slice _ _ _ _ _ | .makeSlice _ _ | .makeInterface _ => sizeIs prog i.ty 1
+  | .sliceToArrayPointer _ =>
+    sizeIs prog i.ty 1 &&
+    (match prog.tyOf i.ty with
+     | .ptr aty => (match prog.tyOf aty with | .arr n _ => 1 ≤ n | _ => true)
+     | _ => true)
+  | .load _ =>
+    (match prog.zeros i.ty with
+     | some zs => sizeIs prog i.ty zs.length && (i.k.pointerish || allData zs)
+     | none => true)
+  | .changeType x => opndSized prog c.f dm (i.opTys.headD 0) i.ty x
+  | .field _ fld _ =>
+    (match prog.tyOf (i.opTys.headD 0) with
+     | .struct fs => (match prog.fieldSpan fs fld with | some (_, sz) => sizeIs prog i.ty sz | none => true)
+     | _ => true)
+  | .extract x fld =>
+    (match prog.tyOf (i.opTys.headD 0) with
+     | .struct fs =>
+       (match prog.fieldSpan fs fld with | some (_, sz) => sizeIs prog i.ty sz | none => true) &&
+       (match x with
+        | .reg r =>
+          (match c.f.instrs[r]? with
+           | some ic =>
+             (match ic.op with
+              | .call (.fn g) _ =>
+                (match prog.funcs[g]? with
+                 | some gf => sizesOf prog fs == sizesOf prog gf.resultTys
+                 | none => true)
+              | _ => true)
+           | none => true)
+        | _ => true)
+     | _ => true)
+  | .index _ _ =>
+    (match prog.tyOf (i.opTys.headD 0) with
+     | .arr _ e => (match prog.size e with | some sz => sizeIs prog i.ty sz | none => true)
+     | _ => true)
+  | .call (.fn g) args =>
+    (match prog.funcs[g]? with
+     | some gf =>
+       (match prog.size i.ty with
+        | some n => sumSizes prog gf.resultTys == some n
+        | none => true) && argsOk c dm gf.params args i.opTys 0
+     | none => true)
+  | .call (.extern n) args =>
+    if n == Ext.mul64 || n == Ext.add64 || n == Ext.sub64 then sizeIs prog i.ty 2
+    else if n == Ext.ctByteEq || n == Ext.ctCompare || n == Ext.leUint64 || n == Ext.errorsNew then sizeIs prog i.ty 1
+    else if n == Ext.onceDo then
+      sizeIs prog i.ty 0 &&
+      -- the flag cell of a `sync.Once` is a package-level variable (or fresh)
+      Prov.subset (Prov.minus (c.lab (args.getD 0 .cother)).roots Prov.fresh) Prov.globalMask
+    else sizeIs prog i.ty 0
+  | .call (.builtin _) _ => sizeIs prog i.ty 1
+  | _ => true
+
+def globalsInRange (ng : Nat) : List Opnd → Bool
+  | [] => true
+  | .global g :: os => g < ng && globalsInRange ng os
+  | _ :: os => globalsInRange ng os
+
+def sInstr (c : PCtx) (D offsets : List Nat) (b n : Nat) (i : Instr) : List Nm :=
+  let dm := defMask D c.f b n
+  if i.id == offsets.getD b 0 + n
+     && globalsInRange c.prog.globals.length i.op.operands
+     && Prov.subset (reqU c i).roots (provOf c.h.provRegs i.id)
+     && resSizeOk c dm i
+     && (match i.op with
+         | .jump t => jumpOk c.prog c.f D b n t
+         | .if _ t e => jumpOk c.prog c.f D b n t && jumpOk c.prog c.f D b n e
+         | .ret vs => retSized c.prog c.f dm vs c.f.resultTys && retLab c vs c.h.returns
+         | _ => true)
+  then [] else [K.malformed]
+
+def sideSelector (prog : Program) (hints : List FuncHints) : Selector :=
+  fun _ f h =>
+    let D := defSets f
+    some { fnKinds := if D.headD 0 == 0 && !Prov.has h.writes Prov.loaded then [] else [K.malformed],
+           instr := sInstr { prog := prog, hints := hints, f := f, h := h } D (blockOffsets f.blocks 0) }
+
+/-- the parameters an exported function may store through are single pointers / slice headers -/
+def allowedSingle (prog : Program) (f : Func) (allowed : Prov) : Nat → Bool
+  | 0 => true
+  | i + 1 =>
+    (!allowed.testBit i ||
+      (match f.params[i]? with
+       | some p => prog.size p.tyId == some 1
+       | none => false)) && allowedSingle prog f allowed i
+
+def writesSideSelector (prog : Program) (pol : WritesPolicy) : Selector :=
+  fun _ f _ =>
+    if f.exported then
+      some { fnKinds := if allowedSingle prog f (allowedWrites pol f) 16 then [] else [K.malformed],
+             instr := fun _ _ _ => [] }
+    else none
+
+end Side
+
+def provSideOk (prog : Program) (hints : List FuncHints) : Bool :=
+  allClean (Side.sideSelector prog hints) prog.funcs hints 0
+
 def provOkSimple (prog : Program) (hints : List FuncHints) : Bool :=
-  allClean (provSelector prog hints) prog.funcs hints 0
+  allClean (provSelector prog hints) prog.funcs hints 0 && provSideOk prog hints
 
 def writesOkSimple (prog : Program) (hints : List FuncHints) (pol : WritesPolicy) : Bool :=
-  allClean (writesSelector prog hints pol) prog.funcs hints 0
+  allClean (writesSelector prog hints pol) prog.funcs hints 0 &&
+  allClean (Side.writesSideSelector prog pol) prog.funcs hints 0
 
 def returnsOkSimple (prog : Program) (hints : List FuncHints) (pol : ReturnsPolicy) : Bool :=
   allClean (returnsSelector prog hints pol) prog.funcs hints 0
@@ -56,6 +315,19 @@ def Outcome.heap? : Outcome → Option Heap
   | .outOfFuel s => some s.heap
   | .fault _ => none
 
+/-- a pointer or a (non-nil) slice header -/
+def Val.isAddr : Val → Bool
+  | .ptr _ _ => true
+  | .slice _ _ _ _ => true
+  | _ => false
+
+/-- the arguments of the call are well-typed for the parameters: every argument has the layout of
+    the parameter's type, and a parameter whose kind is not pointer-like carries no pointer / slice
+    header.  (A condition on the caller's arguments only; nothing about the heap.) -/
+def ArgsOk (prog : Program) (f : Func) (args : List RVal) : Prop :=
+  ∀ (i : Nat) (p : Param) (a : RVal), f.params[i]? = some p → args[i]? = some a →
+    prog.size p.tyId = some a.length ∧ (p.k.pointerish = false → ∀ v ∈ a, Val.isAddr v = false)
+
 /-- **C11(b)**: at every point of the execution (any fuel; normal return, panic, or still running) of a
     call of an *exported* function, the only pre-existing memory that has changed is the memory of the
     arguments the policy allows it to store through (the receiver; for `Swap` also `u`; `dest` for the
@@ -65,7 +337,7 @@ def WritesStatement : Prop :=
   ∀ (prog : Program) (hints : List FuncHints) (pol : WritesPolicy),
     provOkSimple prog hints = true → writesOkSimple prog hints pol = true →
     ∀ (fi : Nat) (f : Func), prog.funcs[fi]? = some f → f.exported = true →
-    ∀ (heap : Heap) (args : List RVal) (s : State), callState prog heap fi args = some s →
+    ∀ (heap : Heap) (args : List RVal) (s : State), ArgsOk prog f args → callState prog heap fi args = some s →
     ∀ fuel, ∀ h', (run prog fuel s).heap? = some h' →
       UnchangedOutside prog (maskedArgBlocks (allowedWrites pol f) args 0) heap h'
 
@@ -81,7 +353,7 @@ def FreshReturnsStatement : Prop :=
   ∀ (prog : Program) (hints : List FuncHints) (pol : ReturnsPolicy),
     provOkSimple prog hints = true → returnsOkSimple prog hints pol = true →
     ∀ (fi : Nat) (f : Func), prog.funcs[fi]? = some f → pol.fresh.any (· == f.name) = true →
-    ∀ (heap : Heap) (args : List RVal) (s : State), callState prog heap fi args = some s →
+    ∀ (heap : Heap) (args : List RVal) (s : State), ArgsOk prog f args → callState prog heap fi args = some s →
     ∀ fuel s' rets, run prog fuel s = .done s' rets →
       ∀ r ∈ rets, ∀ v ∈ r, FreshVal heap.blocks.size v
 
